@@ -133,7 +133,7 @@ def run(rep, tier, seed, tr_errors):
     rep.trusted += ["Coq 8.16.1 kernel, vm_compute", "hand-written model coq/Circuit/Ident.v (traversal order as a recursive function, "
                     "identifier and naming rules); tie 2 = correspondence on every run",
                     "the clause 'every element exactly once' is decided per case on observed data (sorted id lists), not as a theorem about the traversal"]
-    thm_ok, names, out = lib.check_props_file(rep, PROPS_FILE, expect=["C16_typed_counts", "C16_running_ids", "C16_names_injective", "C16_names_are_assigned", "C16_traversal_no_duplicates", "C16_traversal_exactly_the_elements"])
+    thm_ok, names, out = lib.check_props_file(rep, PROPS_FILE, expect=["C16_typed_counts", "C16_running_ids", "C16_names_injective", "C16_builtin_symbols_have_no_underscore", "C16_names_are_assigned", "C16_traversal_no_duplicates", "C16_traversal_exactly_the_elements"])
     n = 400 if tier == "quick" else 6000
     cases, direct = [], []
     from pyimpspec import Circuit
